@@ -1,3 +1,2 @@
 #include "mon.h"
 int mon_threads(const mon_args_t *a) { (void)a; hx_die("not built"); return 2; }
-int mon_io(const mon_args_t *a) { (void)a; hx_die("not built"); return 2; }
